@@ -458,7 +458,12 @@ CancelAwaiting(o, aw) ==
 Reconnect ==
   /\ Ok /\ Ev("reconnect") /\ ph = "ret" /\ Adv
   /\ LET expired == secsAgo # <<>> /\ SessionExpired(Ln.seik, Ln.sei, secsAgo[1]) IN
-        /\ S' = [S EXCEPT !.R = Ln.R, !.M = Ln.M, !.quota = Ln.R, !.loose = TRUE]
+        \* the exchanges still in flight keep their slots: re-sent PUBLISH packets are "sent and not yet completed" on the
+        \* new connection as well, so the quota is the new Receive Maximum less the slots in use (C10 across a resumption)
+        \* (without a recorded disconnection nothing is resumed or abandoned and the bookkeeping is not determined)
+        /\ S' = IF secsAgo # <<>>
+                THEN [S EXCEPT !.R = Ln.R, !.M = Ln.M, !.quota = IF Ln.R >= S.R - S.quota THEN Ln.R - (S.R - S.quota) ELSE 0]
+                ELSE [S EXCEPT !.R = Ln.R, !.M = Ln.M, !.quota = Ln.R, !.loose = TRUE]
         /\ resumeQ' = IF secsAgo # <<>> THEN <<DecideMarker(expired)>> ELSE <<>>
   /\ ph' = "run" /\ netIn' = <<>> /\ netEnd' = "open" /\ wrm' = "accept" /\ retd' = <<>> /\ secsAgo' = <<>>
   /\ discW' = FALSE
@@ -469,7 +474,8 @@ Reconnect ==
 TakeResumeDecide ==      \* silent: run() applies the decision before anything else
   /\ Stepping /\ Deciding
   /\ LET expired == Head(resumeQ).t = "ABANDON" IN
-        /\ S' = IF expired THEN [InitS(S.R, S.M) EXCEPT !.rx2 = S.rx2, !.loose = TRUE] ELSE S
+        \* an abandoned session starts from scratch: the quota is exactly the new Receive Maximum again
+        /\ S' = IF expired THEN [InitS(S.R, S.M) EXCEPT !.rx2 = S.rx2] ELSE S
         /\ ops' = IF expired THEN CancelAwaiting(ops, S.await) ELSE ops
         /\ sts' = IF expired THEN [k \in DOMAIN sts |-> [sts[k] EXCEPT !.tx = FALSE]] ELSE sts
         /\ resumeQ' = IF expired THEN <<>> ELSE ResumeWrites(S)
@@ -657,7 +663,8 @@ ClassifyPollOp ==
          ELSE V(WithC15("C05"), "completion-withheld", <<ops[Ln.k].kind, want.r, want.kind>>))
     ELSE IF want.kind = "ContextExited" \/ got.kind = "ContextExited" THEN V("C14", "wrong-result-after-exit", <<want.kind, got.kind>>)
     ELSE IF got.kind = "QuotaExceeded" /\ ops[Ln.k].st = "wait2" THEN V(<<"C06", "C10">>, "pubrel-refused-by-quota", <<want.r, want.kind>>)
-    ELSE IF want.kind = "MaximumPacketSizeExceeded" THEN V("C12", "size-result", <<want.kind, got.kind>>)    \* the size rule comes first
+    ELSE IF want.kind = "MaximumPacketSizeExceeded" \/ got.kind = "MaximumPacketSizeExceeded"
+         THEN V("C12", "size-result", <<want.kind, got.kind>>)    \* the size rule comes first; a size refusal the reference does not make is C12's too
     ELSE IF got.kind = "QuotaExceeded" /\ g.szrej > 0 THEN V(<<"C12", "C10">>, "refused-request-left-quota-behind", <<want.kind, got.kind, g.szrej>>)
     ELSE IF want.kind = "QuotaExceeded" \/ got.kind = "QuotaExceeded" THEN V("C10", "quota-result", <<want.kind, got.kind>>)
     ELSE IF got.kind = "MaximumPacketSizeExceeded" THEN V("C12", "size-result", <<want.kind, got.kind>>)
